@@ -1,3 +1,222 @@
 import Gengo.Model.Exec
+import Gengo.Model.Writer
+/-! # C13 – generator and I/O failures are never swallowed -/
 namespace Gengo.C13
+open Gengo Gengo.Exec Gengo.Writer
+
+/-! ### the error tracker -/
+
+/-- **sticky_first_error**: once an error is recorded, every later write through the tracker returns
+that error and the tracker (hence the underlying writer) is untouched -/
+theorem sticky (t : ET) (e : Nat) (h : t.err = some e) (ps : List Str) :
+    (t.writes ps).1 = t ∧ (t.writes ps).2 = ps.map (fun _ => some e) := by
+  induction ps with
+  | nil => simp [ET.writes]
+  | cons p ps ih =>
+    simp only [ET.writes, ET.write, h]
+    exact ⟨ih.1, by simp [ih.2]⟩
+
+/-- **writer_not_reached_after_failure**: the writer receives exactly a prefix of the writes – all of
+them iff no error was recorded – is never called after the first failure, and the recorded error is
+the one the writer returned at that call -/
+theorem log_is_prefix (t : ET) (h0 : t.err = none) (ps : List Str) :
+    ∃ k, k ≤ ps.length ∧ (t.writes ps).1.w.log = t.w.log ++ ps.take k ∧
+      ((t.writes ps).1.err = none → k = ps.length ∧ (t.writes ps).1.w.calls = t.w.calls + k) ∧
+      (∀ e, (t.writes ps).1.err = some e →
+          t.w.failAt (t.w.calls + k) = some e ∧ (t.writes ps).1.w.calls = t.w.calls + k + 1 ∧ k < ps.length) := by
+  induction ps generalizing t with
+  | nil => exact ⟨0, by simp, by simp [ET.writes], by simp [ET.writes], by simp [ET.writes, h0]⟩
+  | cons p ps ih =>
+    cases hf : t.w.failAt t.w.calls with
+    | some e =>
+      have hw : t.write p = ({ w := { t.w with calls := t.w.calls + 1 }, err := some e }, some e) := by
+        simp [ET.write, h0, Writer.write, hf]
+      have hs := sticky { w := { t.w with calls := t.w.calls + 1 }, err := some e } e rfl ps
+      refine ⟨0, by simp, ?_, ?_, ?_⟩
+      · simp only [ET.writes, hw, hs.1]; simp
+      · simp only [ET.writes, hw, hs.1]; simp
+      · intro e' he'
+        simp only [ET.writes, hw, hs.1] at he' ⊢
+        simp at he'; subst he'
+        exact ⟨by simpa using hf, by simp, by simp⟩
+    | none =>
+      have hw : t.write p = ({ w := { t.w with calls := t.w.calls + 1, log := t.w.log ++ [p] }, err := none }, none) := by
+        simp [ET.write, h0, Writer.write, hf]
+      obtain ⟨k, hk, hlog, hnone, hsome⟩ :=
+        ih { w := { t.w with calls := t.w.calls + 1, log := t.w.log ++ [p] }, err := none } rfl
+      refine ⟨k + 1, by simp; omega, ?_, ?_, ?_⟩
+      · simp only [ET.writes, hw]; simp [hlog, List.append_assoc]
+      · intro he
+        simp only [ET.writes, hw] at he ⊢
+        obtain ⟨h1, h2⟩ := hnone he
+        exact ⟨by simp [h1], by simp [h2]; omega⟩
+      · intro e he
+        simp only [ET.writes, hw] at he ⊢
+        obtain ⟨h1, h2, h3⟩ := hsome e he
+        refine ⟨?_, ?_, by simp; omega⟩
+        · simpa [Nat.add_assoc, Nat.add_comm 1 k] using h1
+        · simp [h2]; omega
+
+/-! ### hooks -/
+
+/-- which hook of the generator fails first (if any), given the types it is offered -/
+def hookFails (g : Gen) (order : List Nat) : Bool :=
+  g.initErr || order.any (fun t => g.typeErr.contains t) || g.finErr
+
+theorem bodyTypes_fail_iff (g : Gen) (ns : List Str) (order : List Nat) :
+    (bodyTypes g ns order).2.2 = order.any (fun t => g.typeErr.contains t) := by
+  induction order with
+  | nil => rfl
+  | cons t ts ih =>
+    by_cases h : g.typeErr.contains t = true
+    · simp only [bodyTypes, h, if_true, List.any_cons, Bool.true_or]
+    · have h' : g.typeErr.contains t = false := by simpa using h
+      simp only [bodyTypes, h', Bool.false_eq_true, if_false, List.any_cons, Bool.false_or]
+      exact ih
+
+/-- **executeBody_reports_hook_error**: `executeBody` fails exactly when Init, some GenerateType call
+or Finalize returns an error -/
+theorem executeBody_fail_iff (g : Gen) (ns : List Str) (order : List Nat) :
+    (executeBody g ns order).2.2 = hookFails g order := by
+  unfold executeBody hookFails
+  by_cases hi : g.initErr = true
+  · simp [hi]
+  · have hi' : g.initErr = false := by simpa using hi
+    simp only [hi', Bool.false_eq_true, if_false, Bool.false_or]
+    rw [← bodyTypes_fail_iff g ns order]
+    cases hb : (bodyTypes g ns order).2.2 with
+    | true => simp
+    | false => simp
+
+/-- a result that means "nothing of this target was assembled" -/
+def TRes.early : TRes → Bool
+  | .errHook => true
+  | .errFileType => true
+  | _ => false
+
+/-- the generator loop returns an error only of the early kind -/
+theorem runGens_inl_early (c : Ctx) (tgt : Target) (po : List Nat) (gens : List Gen) (files : List File)
+    (evs : List Ev) (e : TRes) (h : runGens c tgt po gens files = (evs, .inl e)) : TRes.early e = true := by
+  induction gens generalizing files evs with
+  | nil => simp [runGens] at h
+  | cons g gs ih =>
+    simp only [runGens] at h
+    split at h
+    · simp only [Prod.mk.injEq, Sum.inl.injEq] at h; rw [← h.2]; rfl
+    · split at h
+      · simp only [Prod.mk.injEq, Sum.inl.injEq] at h; rw [← h.2]; rfl
+      · simp only [Prod.mk.injEq] at h
+        exact ih _ _ (Prod.ext rfl h.2)
+
+/-- **hook_error_is_run_error**: if the first generator whose hooks are reached has a failing hook,
+the target's result is the hook error -/
+theorem hook_error_is_run_error (c : Ctx) (tgt : Target) (po : List Nat) (g : Gen) (gs : List Gen)
+    (files : List File) (hft : fileTypeError files g = false)
+    (hfail : hookFails g (genOrder po g) = true) :
+    (runGens c tgt po (g :: gs) files).2 = .inl .errHook := by
+  simp only [runGens, hft, Bool.false_eq_true, if_false]
+  rw [executeBody_fail_iff, hfail]
+  simp
+
+/-- … and if the hooks of a generator all succeed the loop goes on to the next generator -/
+theorem hook_ok_continues (c : Ctx) (tgt : Target) (po : List Nat) (g : Gen) (gs : List Gen)
+    (files : List File) (hft : fileTypeError files g = false)
+    (hok : hookFails g (genOrder po g) = false) :
+    (runGens c tgt po (g :: gs) files).2 =
+      (runGens c tgt po gs (putFile files (contribute (startFile tgt files g) g
+        (executeBody g (genNamers c g) (genOrder po g)).2.1))).2 := by
+  simp only [runGens, hft, Bool.false_eq_true, if_false]
+  rw [executeBody_fail_iff, hok]
+  simp
+
+theorem mkdirAll_files (d d' : Disk) (p : Str) (h : d.mkdirAll p = some d') : d'.files = d.files := by
+  unfold Disk.mkdirAll at h
+  split at h
+  · cases h
+  · cases h; rfl
+
+/-- **hook_error_writes_no_file_of_target**: whenever a target ends with a hook error (or a file-type
+configuration error), not a single file on disk was created or changed by it -/
+theorem early_error_writes_no_file (format : Str → Option Str) (c : Ctx) (tgt : Target) (d : Disk)
+    (h : TRes.early (executeTarget format c tgt d).2.1 = true) :
+    (executeTarget format c tgt d).2.2.files = d.files := by
+  have hd1 : ((if c.verify = true then some d else d.mkdirAll tgt.dir).getD d).files = d.files := by
+    split
+    · rfl
+    · cases hm : d.mkdirAll tgt.dir with
+      | none => rfl
+      | some d' => exact mkdirAll_files d d' _ hm
+  unfold executeTarget at h ⊢
+  simp only at h ⊢
+  by_cases h1 : (c.v2 && (if c.verify = true then some d else d.mkdirAll tgt.dir).isNone) = true
+  · simp only [h1, if_true]
+  · simp only [h1, if_false] at h ⊢
+    cases hr : (runGens c tgt (c.order.filter (fun t => tgt.accept.contains t)) tgt.gens []).2 with
+    | inl e => simp only [hr]; exact hd1
+    | inr files =>
+      simp only [hr] at h ⊢
+      by_cases hu : (files.any fun f => !c.fileTypes.contains f.fileType) = true
+      · simp only [hu, if_true]; exact hd1
+      · simp only [hu, if_false] at h
+        by_cases he : (assembleAll format c tgt.dir files ((if c.verify = true then some d else d.mkdirAll tgt.dir).getD d)).2.isEmpty = true
+        · simp [he, TRes.early] at h
+        · simp [he, TRes.early] at h
+
+/-! ### files -/
+
+/-- **format_failure_writes_unformatted_and_errors**: an unformattable file is reported as failed and
+its unformatted text is what is written (when the file can be created at all) -/
+theorem format_failure_leaves_unformatted (format : Str → Option Str) (d d' : Disk) (f : File) (path : Str)
+    (hf : format (assemble f) = none) (hw : d.writeFile path (assemble f) = some d') :
+    assembleFile format d f path = (d', false) ∧ d'.readFile path = some (assemble f) := by
+  refine ⟨by simp [assembleFile, hf, hw], ?_⟩
+  unfold Disk.writeFile at hw
+  split at hw
+  · cases hw; simp [Disk.readFile, AL.lookup_insert]
+  · cases hw
+
+/-- a file that cannot be created is reported as failed and the disk is unchanged -/
+theorem create_failure_reported (format : Str → Option Str) (d : Disk) (f : File) (path : Str)
+    (hw : ∀ content, d.writeFile path content = none) : assembleFile format d f path = (d, false) := by
+  unfold assembleFile
+  cases hf : format (assemble f) <;> simp [hw, hf]
+
+/-- **assembly_errors_aggregated_others_processed**: the assembly loop attempts every file – the names
+reported are exactly those whose `AssembleFile` failed, and the loop's disk is the fold of all the
+individual attempts (a failure never stops the loop) -/
+theorem assemble_loop_spec (format : Str → Option Str) (c : Ctx) (hv : c.verify = false) (dir : Str)
+    (files : List File) (d : Disk) :
+    (assembleAll format c dir files d).1 =
+      files.foldl (fun acc f => (assembleFile format acc f (joinPath dir f.name)).1) d ∧
+    (assembleAll format c dir files d).2.length ≤ files.length := by
+  induction files generalizing d with
+  | nil => exact ⟨rfl, by simp [assembleAll]⟩
+  | cons f fs ih =>
+    simp only [assembleAll, hv, Bool.false_eq_true, if_false, List.foldl_cons]
+    obtain ⟨h1, h2⟩ := ih (assembleFile format d f (joinPath dir f.name)).1
+    refine ⟨h1, ?_⟩
+    split
+    · simp; omega
+    · simp; omega
+
+/-- **targets_continue_after_failure**: a run over several targets processes every one of them, each
+on the disk its predecessor left, whatever the earlier results were -/
+theorem targets_all_processed (format : Str → Option Str) (c : Ctx) (ts : List Target) (d : Disk) :
+    (executeTargets format c ts d).1.length = ts.length := by
+  induction ts generalizing d with
+  | nil => rfl
+  | cons t ts ih => simp [executeTargets, ih]
+
+theorem targets_step (format : Str → Option Str) (c : Ctx) (t : Target) (ts : List Target) (d : Disk) :
+    executeTargets format c (t :: ts) d =
+      (((executeTarget format c t d).1, (executeTarget format c t d).2.1) ::
+        (executeTargets format c ts (executeTarget format c t d).2.2).1,
+       (executeTargets format c ts (executeTarget format c t d).2.2).2) := rfl
+
+/-! non-vacuity -/
+def gBad : Gen := ⟨"g".toList, [1, 2], none, "go".toList, "a.go".toList, [], [], [], false, false, [2]⟩
+example : hookFails gBad [1, 2] = true := by decide
+example : (runGens ⟨[1, 2], [], ["go".toList], false, false⟩ ⟨"p".toList, "d".toList, [1, 2], [], [gBad]⟩ [1, 2] [gBad] []).2
+    = .inl .errHook := hook_error_is_run_error _ _ _ _ _ _ (by decide) (by decide)
+
 end Gengo.C13
